@@ -6,12 +6,11 @@ import EAO.Model.Structured
 
 * `scaled`      `{base: asset, acols: k|null, params: {name, node0, min_scale, max_scale, norm_scale, fix_costs},
                   grid: {pts, idx, dt, Dt, df} | dt_sum: r}`
-                → `{"problem": asset, "regular": bool, "last_var_mapped": bool}` | `{"error": "value"|"assert"}`
+                → `{"problem": asset}` | `{"error": "value"|"index"|"assert"}`
   (`"assert"`: the constructor's assertions on the parameters; with `ctor_only: true` only those are checked)
   (`base` = problem captured from the real base asset; `acols` = number of columns of its `A`, null when
    `A is None`; `grid` = restricted grid of the SCALED asset, only `dt` is used)
-* `structured`  `{name, ext: [node], inner: [asset], gridI: [i], nonstr?: bool}`
-                → `{"problem": asset}` | `{"error": "type"}`
+* `structured`  `{name, ext: [node], inner: [asset], gridI: [i]}` → `{"problem": asset}`
   (`inner` = problems captured from the inner assets while the structured asset was set up)
 -/
 open Lean EAO
@@ -36,18 +35,14 @@ def handleScaled (op : String) (j : Json) : Option (Except String Json) :=
       | some g => pure (activeDuration g)
       | none => field j "dt_sum" getRat
     match buildScaledE p base dtSum acols with
-    | .ok a => pure (Json.mkObj [("problem", jAsset a), ("regular", Json.bool (decide (ScaledRegular base))),
-        ("last_var_mapped", Json.bool (decide (LastVarMapped base)))])
+    | .ok a => pure (Json.mkObj [("problem", jAsset a)])
     | .error e => pure (Json.mkObj [("error", Json.str e)])
   | "structured" => do
     let name ← field j "name" Json.getStr?
     let ext ← field j "ext" getStrs
     let inner ← field j "inner" (getList getAsset)
     let gridI ← field j "gridI" getNats
-    let nonstr := (← fieldOpt j "nonstr" Json.getBool?).getD false
-    match structuredE nonstr name ext inner gridI with
-    | .ok a => pure (Json.mkObj [("problem", jAsset a)])
-    | .error e => pure (Json.mkObj [("error", Json.str e)])
+    pure (Json.mkObj [("problem", jAsset (structured name ext inner gridI))])
   | _ => throw s!"unknown op {op}"
 
 end EAO.Driver
